@@ -16,7 +16,7 @@ import warnings
 import torch
 import torch.nn as nn
 
-from .. import common, pitcheck
+from .. import common, pitauto, pitcheck
 
 
 def _supernet_case(seed):
@@ -125,6 +125,19 @@ def run(chk):
             for node, pl in (a.get('plan') or {}).items():
                 if pl and pl['regular'] and pl['okept'] != list(range(len(pl['okept']))):
                     chk.violation('C07:export-at-once-drops-features', 'layer n%s keeps %s' % (node, pl['okept']), cid)
+    # autoconvert_layers=False with user-placed searchable layers
+    for o in common.pmap(pitauto.auto_off_case, [(chk.rng.randint(0, 1 << 30), False) for _ in range(16 if chk.quick else 300)]):
+        case = {'kind': 'auto_off', 'seed': o['seed']}
+        chk.count(('auto_off', o['seed']), nontrivial=any(o.get('with_bn', [])), bucket='autoconvert-off:fold_bn=%s' % o.get('fold_bn'),
+                  sample={'autoconvert': False, 'chans': o.get('chans'), 'with_bn': o.get('with_bn'), 'fold_bn': o.get('fold_bn')})
+        if o.get('error'):
+            chk.violation('C07:autoconvert-off:raises', o['error'], case)
+            continue
+        if o['import_diff'] is not None:
+            chk.violation('C07:autoconvert-off:' + ('folded-bn-applied-twice' if o['fold_bn'] else 'import-changes-function'),
+                          'PIT(model, autoconvert_layers=False, fold_bn=%s) differs from the model by %s' % (o['fold_bn'], o['import_diff']), case)
+        elif o['export0_diff'] is not None:
+            chk.violation('C07:autoconvert-off:export-at-once-changes-function', 'export() right after import differs by %s' % o['export0_diff'], case)
     outs = common.pmap(_supernet_case, [chk.rng.randint(0, 1 << 30) for _ in range(12 if chk.quick else 200)])
     for o in outs:
         case = {'kind': 'supernet', 'seed': o['seed']}
@@ -142,6 +155,10 @@ def run(chk):
 
 def replay(data):
     case = data['case']
+    if case.get('kind') == 'auto_off':
+        o = pitauto.auto_off_case((case['seed'], False))
+        print(o)
+        return 1 if (o.get('error') or o['import_diff'] is not None or o['export0_diff'] is not None) else 0
     if case.get('kind') == 'supernet':
         o = _supernet_case(case['seed'])
         print(o)
